@@ -273,6 +273,16 @@ public:
         RespScript sc; { std::lock_guard<std::mutex> g(G.m); sc = G.script; }
         // "/slow<ms>": keep this worker busy for a while (used to make events coalesce on other connections)
         if (req.resource().rfind("/slow", 0) == 0) std::this_thread::sleep_for(std::chrono::milliseconds(atoi(req.resource().c_str() + 5)));
+        // "/sflush<ms>": stay busy for a while, then answer with a stream flushed twice from inside onInput (the client may be gone by then)
+        if (req.resource().rfind("/sflush", 0) == 0) {
+            std::this_thread::sleep_for(std::chrono::milliseconds(atoi(req.resource().c_str() + 7)));
+            auto stream = response.stream(Http::Code::Ok);
+            stream << "first chunk"; stream << Http::flush;
+            std::this_thread::sleep_for(std::chrono::milliseconds(30));
+            stream << "second chunk"; stream << Http::flush;
+            stream.ends();
+            return;
+        }
         // "/big<KB>": a large fixed response (used to leave a connection with a blocked write)
         if (req.resource().rfind("/big", 0) == 0) { response.send(Http::Code::Ok, std::string(static_cast<size_t>(atoi(req.resource().c_str() + 4)) * 1024, 'x')); return; }
         std::string result = "none", err; long size = -1;
@@ -750,7 +760,8 @@ std::string opTimeout2(const std::vector<std::string>& w)
 // WR, read to EOF, close), X reset (SO_LINGER 0), T silence for hdr + 1300 ms (then read what the server sent), W wait 50 ms,
 // A abort: partial request + close while the worker is busy with another connection, B request an 8 MB answer and do not read it
 // (the connection then has a blocked, non-empty write queue when it is closed or reset), Z the same but silent until the idle
-// time-out fired (408 queued behind the blocked answer), then everything is read up to the server's close
+// time-out fired (408 queued behind the blocked answer), then everything is read up to the server's close, S / s request a streamed
+// answer from a slow handler and reset / close before the handler flushes it (the writes inside onInput fail)
 std::string opLife(const std::vector<std::string>& w)
 {
     if (w.size() != 4) return "bad-op";
@@ -816,6 +827,15 @@ std::string opLife(const std::vector<std::string>& w)
                 if (getenv("LIFE_DEBUG")) fprintf(stderr, "Z: got %zu bytes, head ends at %zu, bodyEnd %zu, closed %d, tail=[%s]\n", all.size(), he, bodyEnd, (int)cl, all.size() > 60 ? all.substr(all.size() - 60).c_str() : all.c_str());
                 k.seen += std::to_string(statusOf(all)) + "+" + std::to_string(second) + (cl ? "!" : "") + ";";
                 if (cl) { ::close(k.fd); k.open = false; }
+            }
+            else if (a == 'S' || a == 's') {
+                // leave while the handler is still busy with this connection's request; its streamed answer is then flushed, from inside
+                // onInput, to a socket whose peer has reset (S) or closed (s): the writes fail, the read side must report the loss once
+                sendAll(k.fd, "GET /sflush80 HTTP/1.1\r\nHost: h\r\n\r\n");
+                std::this_thread::sleep_for(std::chrono::milliseconds(25));
+                if (a == 'S') { linger lg { 1, 0 }; ::setsockopt(k.fd, SOL_SOCKET, SO_LINGER, &lg, sizeof lg); }
+                ::close(k.fd); k.open = false;
+                std::this_thread::sleep_for(std::chrono::milliseconds(160));
             }
             else if (a == 'C') { ::close(k.fd); k.open = false; }
             else if (a == 'H') { ::shutdown(k.fd, SHUT_WR); bool cl; readResponse(k.fd, 300, &cl, false); ::close(k.fd); k.open = false; }
